@@ -58,7 +58,9 @@ def _getstate_post(ex, F, env, out, snap):
         return
     r = out[1]
     old = snap["self"]
-    ok = isinstance(r, dict) and set(r) == set(old) and all(r[k] is old[k] for k in old)
+    # under interference (C18) a field may already hold the value another thread stored: still one whole field value
+    cur = env["self"].fields
+    ok = isinstance(r, dict) and set(r) == set(old) and all(r[k] is old[k] or (k in env["self"].ghost.get("env_written", ()) and r[k] is cur[k]) for k in old)
     yield "state-is-all-fields", ok, "the pickled state must be exactly the field dictionary (got keys %s)" % (sorted(r) if isinstance(r, dict) else r,)
     yield "state-is-a-copy", isinstance(r, dict) and r is not env["self"].fields, "the state must not alias the live dictionary"
     yield "frame", *frame_ok(env, snap, set())
